@@ -158,7 +158,7 @@ func judgeAlone(c *hx.Ctx, prop string, g AloneCfg, pred *aloneCase, run AloneRu
 		wantSize = g.Size
 	}
 	if tr != nil {
-		fmt.Fprintf(tr, `{"ev":"New","sih":%v,"size":%d,"eos":%v,"lc":%d,"lp":%d,"pb":%d,"dictCap":%d,"ok":true,"hProp":%d,"hDict":%d,"hSize":%d}`+"\n", g.Sih, g.Size, g.Eos, g.LC, g.LP, g.PB, g.DictCap, h.PropCode, h.DictSize, h.Size)
+		fmt.Fprintf(tr, `{"ev":"New","sih":%v,"size":%d,"eos":%v,"lc":%d,"lp":%d,"pb":%d,"dictCap":%d,"ok":true,"hdr":%v,"hProp":%d,"hDict":%d,"hSize":%d}`+"\n", g.Sih, g.Size, g.Eos, g.LC, g.LP, g.PB, g.DictCap, len(run.Sink) >= 13, h.PropCode, h.DictSize, h.Size)
 		for _, oc := range run.Calls {
 			if oc.Op == "W" {
 				fmt.Fprintf(tr, `{"ev":"W","n":%d,"ret":%d,"err":"%s"}`+"\n", oc.N, oc.Ret, oc.Err)
@@ -170,6 +170,11 @@ func judgeAlone(c *hx.Ctx, prop string, g AloneCfg, pred *aloneCase, run AloneRu
 	// properties and size must be stated exactly; the dictionary size only has to cover every
 	// match distance (checked below on the decoded operations), so a header that rounds the
 	// capacity up is not an offence
+	if !run.CloseOK && len(run.Sink) < 13 {
+		// a writer in front of a plain io.Writer may hold everything back until Close; without a
+		// successful Close there is no header to judge yet
+		return
+	}
 	if herr != nil || int(h.PropCode) != (g.PB*5+g.LP)*9+g.LC || h.Size != wantSize {
 		c.Violation(sig("header", "hsize", fmt.Sprint(h.Size)), fmt.Sprintf("header says props=%d dict=%d size=%d; configuration implies props=%d dict=%d size=%d", h.PropCode, h.DictSize, h.Size, (g.PB*5+g.LP)*9+g.LC, g.DictCap, wantSize), replay)
 		return
